@@ -645,19 +645,23 @@ def op_names(op):
 
 def call_outcome(f, a, k, arm=None):
     ctl = seams.ACTIVE
+    fired0 = ctl.fired if ctl is not None else 0
     if arm and ctl is not None:
         ctl.arm_interrupt(arm)
     try:
-        return ('ok', f(*a, **k))
+        out = ('ok', f(*a, **k))
     except seams.SimInterrupt as e:
-        return ('interrupted', str(e))
+        out = ('interrupted', str(e))
     except SimDeadlock as e:
-        return ('deadlock', str(e))
+        out = ('deadlock', str(e))
     except Exception as e:
-        return ('raise', type(e).__name__, str(e)[:200])
+        out = ('raise', type(e).__name__, str(e)[:200])
     finally:
         if ctl is not None:
             ctl.disarm()
+    if ctl is not None and ctl.fired > fired0 and out[0] != 'deadlock':
+        return ('interrupted', 'injected interrupt; call ended with %s' % out[0])
+    return out
 
 
 class Session:
